@@ -30,6 +30,10 @@ def scaleCols {n m : Nat} (U : Mat α n m) (s : Fin m → α) : Mat α n m := fu
 def mmul {n m p : Nat} (A : Mat α n m) (B : Mat α m p) : Mat α n p :=
   tab fun i j => sumFin m fun l => A i l * B l j
 
+/-- `ConstantMulLinearOperator.root_inv_decomposition` (since /repo c4c33aa): the base operator's inverse root scaled by
+`c ** -0.5` (`ConstantMulLinearOperator(base_inv_root, c ** -0.5)`), mirroring `constMulRoot`. -/
+def constMulRootInv {n m : Nat} (isc : α) (R0 : Mat α n m) : Mat α n m := constMulRoot isc R0
+
 end roots
 
 /-! ### `torch.Tensor.repeat` on the batch dimensions (BatchRepeat roots). -/
